@@ -539,7 +539,7 @@ def run(ctx):
         "binary64 rounding of sums/means/totals (1e-9 of the sum of magnitudes) - tested against exact rationals",
         "monthly2daily output index (one stamp per calendar day) - tested against python's calendar",
         "goue = NSE against the group means - tested against exact rationals"]
-    proved = cm.prove(ctx)
+    proved = cm.prove_with_kernels(ctx, ["c_aggregate", "c_flathomogen"])
     cm.use_impl()
     rng = ctx.rng
     terms, replays, results = [], [], []
